@@ -51,3 +51,59 @@ _mk(2, "read_milliseconds", lambda v: And(v >= -MPD, v < 2**31), 4)
 _mk(3, "read_byte", lambda v: And(v >= 0, v <= 255), 1)
 _mk(4, "__read_int64", lambda v: And(v >= -(2**63), v < 2**63), 8)
 _mk(5, "has_more_data", lambda v: True, 1)
+
+
+# ------------------------------------------------------------------------------------------ the loading boundary
+import io  # noqa: E402
+import struct  # noqa: E402
+
+SD = "pyoda_time.time_zones.io._tzdb_stream_data:_TzdbStreamData."
+LEAKS = (struct.error, ValueError, UnicodeDecodeError, KeyError, IndexError, OverflowError)
+
+
+def _boundary_setup(eng):
+    """Everything called inside the boundary may return or raise any of the exception types that damaged data is
+    known to produce deep in the readers (ranges, enum ids, decoding, unpacking, lookups, overflow) -- or the documented
+    error itself.  The contract then says that only the documented error leaves the boundary."""
+    from pyvc import sym
+    from pyvc.values import ExcValue, PyRaise
+    from pyoda_time.time_zones.io._tzdb_stream_data import _TzdbStreamData as D
+    from pyoda_time.time_zones.io._tzdb_stream_field import _TzdbStreamField as F
+    from pyoda_time.utility import InvalidPyodaDataError
+
+    kinds = LEAKS + (InvalidPyodaDataError,)
+
+    def may_raise(eng, tag):
+        which = sym.fresh_int(f"outcome_{tag}")
+        eng.assume(And(which >= 0, which <= len(kinds)))
+        i = eng.choose([sym.SBool.lift(which == k) for k in range(len(kinds) + 1)], "inner-outcome")
+        if i < len(kinds):
+            raise PyRaise(ExcValue(kinds[i], (), f"model:{tag}"))
+
+    def unpack(eng, fmt, data):
+        may_raise(eng, "struct.unpack")
+        return (sym.fresh_int("version"),)
+
+    def read_fields(eng, cls, stream):
+        may_raise(eng, "_read_fields")
+        from pyvc.values import SList
+
+        return SList([], owner=eng.active_runs[-1])
+
+    def init(eng, self_, builder):
+        may_raise(eng, "_TzdbStreamData.__init__")
+
+    eng.models[struct.unpack] = unpack
+    eng.func_models[vars(F)["_read_fields"].__func__] = read_fields
+    eng.func_models[vars(D)["__init__"]] = init
+
+
+@contract(SD + "_from_stream", "C20", name="_TzdbStreamData._from_stream: whatever damaged data makes the readers raise, only InvalidPyodaDataError leaves the loading boundary")
+def _(c):
+    c.arg("stream", Const(lambda: io.BytesIO(b"")))
+    c.setup = _boundary_setup
+    c.crosscheck = 0
+    c.replayable = False
+    c.returns(lambda a, r: True)
+    c.raises(_ipde())
+    c.min_obligations = 2
